@@ -111,6 +111,7 @@ static void setup_argument_context(bool is_retval, struct script_context *sc_ctx
 		case ARG_FMT_SINT:
 		case ARG_FMT_UINT:
 		case ARG_FMT_HEX:
+		case ARG_FMT_OCT:
 		case ARG_FMT_PTR:
 		case ARG_FMT_ENUM:
 			memcpy(val.v, data, spec->size);
